@@ -714,7 +714,12 @@ def compression_switch_during_write(run, thorough):
             if not held:
                 held.append(1)
                 entered.set()
-                pc.wait_for(lambda: conn.options.compression_enabled, 8.0)
+                # (the networking thread can only process Set Compression if
+                # it is in its read phase; had it just gone for the write
+                # lock - which this forced write holds - the premise of the
+                # case is not reached and nothing is judged)
+                held.append(pc.wait_for(
+                    lambda: conn.options.compression_enabled, 3.0))
         conn.register_packet_listener(hold, serverbound.play.ChatPacket,
                                       outgoing=True, early=True)
         w = {'live': 'compression-switch-during-forced-write', 'pv': pv,
@@ -737,6 +742,10 @@ def compression_switch_during_write(run, thorough):
         if [e for e in server.errors if e[1] == 'script'] or \
                 not switched.is_set():
             run.inconclusive_because('switch case: %r' % (server.errors[:1],))
+            continue
+        if len(held) < 2 or not held[1]:
+            # compression did not come into force while the write was held
+            run.count('live.compression_switch_premise_not_reached')
             continue
         run.count('live.compression_switched_during_a_write')
         if [e for e in server.errors if e[1] == 'frame']:
